@@ -132,6 +132,13 @@ func init() {
 			}
 			return ""
 		}
+		if cs.Kind == "reach-expr" {
+			r := Sat(cs.A, []string{cs.B})
+			if r.Panic == "" && !r.IsErr && r.Ok != cs.Want {
+				return fmt.Sprintf("Satisfies(%q, [%q]) = %v, natural version order says %v", cs.A, cs.B, r.Ok, cs.Want)
+			}
+			return ""
+		}
 		if cs.Kind == "reach-list" {
 			l := strings.Split(cs.A, "\x00")
 			r := Sat(cs.B, l)
@@ -243,6 +250,24 @@ func c11Run(c *Ctx) {
 						// the same question with x+ inside a longer list next to plain x and entries that
 						// sort before and after it (the allowed list is sorted and de-duplicated internally)
 						if a == x+"+" && b == y {
+							// x and x+ in ONE expression against y: the OR needs only the '+' term to reach y
+							for _, e := range []string{x + " OR " + a, a + " OR " + x, "(" + x + " AND " + x + ") OR " + a} {
+								r := Sat(e, []string{y})
+								c.Inc("states")
+								c.Inc("transitions")
+								c.Inc("evaluations")
+								if r.Panic != "" || r.IsErr {
+									c.Inc("skipped_error_or_panic")
+									continue
+								}
+								c.Inc("traces")
+								lw := want || cv == 0
+								if r.Ok != lw {
+									c.Report(Violation{Kind: "c11.case", Class: "reach-in-expression", Key: "reach-expr:" + e + "->" + y, Size: len(e) + len(y),
+										Msg:  fmt.Sprintf("Satisfies(%q, [%q]) = %v, natural version order says %v", e, y, r.Ok, lw),
+										Case: mustJSON(c11Case{Kind: "reach-expr", A: e, B: y, Want: lw, Family: f.Index})})
+								}
+							}
 							for _, l := range [][]string{{x, a, "0BSD", "zlib-acknowledgement"}, {"zlib-acknowledgement", a, x}, {a, x, "0BSD", x}} {
 								r := Sat(b, l)
 								c.Inc("states")
